@@ -609,7 +609,7 @@ impl Forest {
             Unwrap(e) => kind(*e) == MKind::Elem && x.parent(*e).is_some(),
             CloneNode(_) | CloneWithPrefixes(_) => true,
             // whether the wrapper may refuse "--" is left open (Comment::set does refuse it)
-            AppendComment(p, s) => container(*p) && !s.contains("--"),
+            AppendComment(p, s) => container(*p) && !s.contains("--") && !s.ends_with('-'),
             AppendText(p, _) | AppendElement(p, _) | AppendPi(p, _, _) => container(*p),
             AppendAttrNode(e, a) => kind(*e) == MKind::Elem && kind(*a) == MKind::Attr,
             AppendNsNode(e, a) => kind(*e) == MKind::Elem && kind(*a) == MKind::Ns,
@@ -622,7 +622,8 @@ impl Forest {
                 kind(*e) == MKind::Elem
             }
             SetText(n, _) => kind(*n) == MKind::Text,
-            SetComment(n, s) => kind(*n) == MKind::Comment && !s.contains("--"),
+            // (a comment may not contain "--"; whether one ending in "-", which cannot be written either, is refused is left open)
+            SetComment(n, s) => kind(*n) == MKind::Comment && !s.contains("--") && !s.ends_with('-'),
             SetPiData(n, _) => kind(*n) == MKind::Pi,
             SetAttrValue(n, _) => kind(*n) == MKind::Attr,
             SetNsUri(n, _) => kind(*n) == MKind::Ns,
